@@ -12,7 +12,7 @@ set_option linter.unusedSimpArgs false
 open NiftyVerif.Iter
 
 variable {K V : Type} [Field K] [LinearOrder K] [IsStrictOrderedRing K] [AddCommGroup V] [Module K V]
-variable (c : Cfg K) (ip : V → V → K) (mat : V → V) (j : V)
+variable (c : Cfg K) (ip : V → V → K) (nrm : V → K) (mat : V → V) (j : V)
 
 /-- `mat` is self-adjoint with respect to `ip` -/
 def SelfAdj : Prop := ∀ a b, ip (mat a) b = ip a (mat b)
@@ -35,7 +35,7 @@ def InvB (E0 : K) (s : St K V) : Prop :=
 
 theorem eagerStep_specB (hip : SymmBilin ip) (hm : Linear (K := K) mat) (hsa : SelfAdj ip mat)
     (hnn : ∀ a, 0 ≤ ip a a) (E0 : K) (i : Nat) (hi : 1 ≤ i) (s : St K V) (hinv : InvB ip mat j E0 s) :
-    match eagerStep c ip mat j i s with
+    match eagerStep c ip nrm mat j i s with
     | .next s' => InvB ip mat j E0 s'
     | .stop (.ok res) => quadE ip mat j res.x ≤ E0
     | .stop (.error _) => True := by
@@ -43,7 +43,7 @@ theorem eagerStep_specB (hip : SymmBilin ip) (hm : Linear (K := K) mat) (hsa : S
   have hA' := hA
   obtain ⟨hr, hg, he⟩ := hA
   have hb := hip.toBilin
-  have hstepA := eagerStep_specA c ip mat j hb hm i hi s hA'
+  have hstepA := eagerStep_specA c ip nrm mat j hb hm i hi s hA'
   have hγ : 0 ≤ s.gamma := by rw [hg]; exact hnn _
   -- energy after a step of length `a` along `-d`
   have hq : ∀ a : K, quadE ip mat j (s.pos - a • s.d)
@@ -98,7 +98,7 @@ theorem eagerStep_specB (hip : SymmBilin ip) (hm : Linear (K := K) mat) (hsa : S
 
 theorem loop_specB (hip : SymmBilin ip) (hm : Linear (K := K) mat) (hsa : SelfAdj ip mat)
     (hnn : ∀ a, 0 ≤ ip a a) (E0 : K) : ∀ (fuel i : Nat) (s : St K V), 1 ≤ i → InvB ip mat j E0 s →
-    ∀ res, eagerLoop c ip mat j fuel i s = .ok res → quadE ip mat j res.x ≤ E0 := by
+    ∀ res, eagerLoop c ip nrm mat j fuel i s = .ok res → quadE ip mat j res.x ≤ E0 := by
   intro fuel
   induction fuel with
   | zero =>
@@ -108,9 +108,9 @@ theorem loop_specB (hip : SymmBilin ip) (hm : Linear (K := K) mat) (hsa : SelfAd
     exact hinv.2.2
   | succ fuel ih =>
     intro i s hi hinv res hres
-    have hstep := eagerStep_specB c ip mat j hip hm hsa hnn E0 i hi s hinv
+    have hstep := eagerStep_specB c ip nrm mat j hip hm hsa hnn E0 i hi s hinv
     rw [eagerLoop] at hres
-    cases hE : eagerStep c ip mat j i s with
+    cases hE : eagerStep c ip nrm mat j i s with
     | stop r =>
       rw [hE] at hstep hres
       simp only at hres
@@ -139,7 +139,7 @@ theorem init_invB (hip : SymmBilin ip) (hm : Linear (K := K) mat) (x0 : Option V
 
 /-- `_cg` never returns a point with quadratic energy above the start -/
 theorem cgEager_energy (hip : SymmBilin ip) (hm : Linear (K := K) mat) (hsa : SelfAdj ip mat)
-    (hnn : ∀ a, 0 ≤ ip a a) (x0 : Option V) (res : Res K V) (hres : cgEager c ip mat j x0 = .ok res) :
+    (hnn : ∀ a, 0 ≤ ip a a) (x0 : Option V) (res : Res K V) (hres : cgEager c ip nrm mat j x0 = .ok res) :
     quadE ip mat j res.x ≤ quadE ip mat j (x0.getD 0) := by
   have hinit := init_invB ip mat j hip hm x0
   unfold cgEager at hres
@@ -148,13 +148,13 @@ theorem cgEager_energy (hip : SymmBilin ip) (hm : Linear (K := K) mat) (hsa : Se
   · simp only [Except.ok.injEq] at hres
     subst hres
     exact hinit.2.2
-  · exact loop_specB c ip mat j hip hm hsa hnn _ (maxiterEff c) 1 _ (le_refl _) hinit res hres
+  · exact loop_specB c ip nrm mat j hip hm hsa hnn _ (maxiterEff c) 1 _ (le_refl _) hinit res hres
 
 /-- first direction has negative curvature and failure is not requested: one steepest-descent step -/
 theorem cgEager_first_step (hip : SymmBilin ip) (hm : Linear (K := K) mat) (hsa : SelfAdj ip mat)
     (hnn : ∀ a, 0 ≤ ip a a) (x0 : Option V) (hraise : c.raiseNPD = false) (hmax : 0 < maxiterEff c)
     (g : V) (hgdef : g = mat (x0.getD 0) - j) (hg0 : ip g g ≠ 0) (hcurv : ip g (mat g) < 0) :
-    ∃ res, cgEager c ip mat j x0 = .ok res ∧ res.x = x0.getD 0 - (ip g g / -ip g (mat g)) • g
+    ∃ res, cgEager c ip nrm mat j x0 = .ok res ∧ res.x = x0.getD 0 - (ip g g / -ip g (mat g)) • g
       ∧ 0 < ip g g / -ip g (mat g) ∧ res.info = 0 ∧ res.nit = 1
       ∧ quadE ip mat j res.x < quadE ip mat j (x0.getD 0) := by
   have hA := init_invA ip mat j hip.toBilin hm x0
@@ -190,11 +190,11 @@ theorem absK_nonneg (a : K) : 0 ≤ absK a := by
 theorem eagerStep_spd (hip : SymmBilin ip) (hm : Linear (K := K) mat) (hsa : SelfAdj ip mat)
     (hnn : ∀ a, 0 ≤ ip a a) (hpd : ∀ v : V, v ≠ 0 → 0 < ip v (mat v)) (heps : 0 ≤ c.eps) (htiny : 0 ≤ c.tiny)
     (E0 : K) (i : Nat) (hi : 1 ≤ i) (s : St K V) (hinv : InvB ip mat j E0 s) (hγ : 0 < s.gamma) :
-    match eagerStep c ip mat j i s with
+    match eagerStep c ip nrm mat j i s with
     | .next s' => InvB ip mat j E0 s' ∧ 0 < s'.gamma
     | .stop (.ok res) => res.info = 0 ∧ (res.why = .gammaTiny ∨ res.why = .resnorm ∨ res.why = .absdelta)
     | .stop (.error _) => False := by
-  have hB := eagerStep_specB c ip mat j hip hm hsa hnn E0 i hi s hinv
+  have hB := eagerStep_specB c ip nrm mat j hip hm hsa hnn E0 i hi s hinv
   obtain ⟨hA, hrd, hE0⟩ := hinv
   obtain ⟨hr, hg, he⟩ := hA
   have hb := hip.toBilin
@@ -240,15 +240,15 @@ theorem eagerStep_spd (hip : SymmBilin ip) (hm : Linear (K := K) mat) (hsa : Sel
 theorem loop_spd (hip : SymmBilin ip) (hm : Linear (K := K) mat) (hsa : SelfAdj ip mat)
     (hnn : ∀ a, 0 ≤ ip a a) (hpd : ∀ v : V, v ≠ 0 → 0 < ip v (mat v)) (heps : 0 ≤ c.eps) (htiny : 0 ≤ c.tiny)
     (E0 : K) : ∀ (fuel i : Nat) (s : St K V), 1 ≤ i → InvB ip mat j E0 s → 0 < s.gamma →
-    ∃ res, eagerLoop c ip mat j fuel i s = .ok res ∧ (res.info = 0 ∨ res.why = .maxiter) := by
+    ∃ res, eagerLoop c ip nrm mat j fuel i s = .ok res ∧ (res.info = 0 ∨ res.why = .maxiter) := by
   intro fuel
   induction fuel with
   | zero => intro i s _ _ _; exact ⟨_, rfl, Or.inr rfl⟩
   | succ fuel ih =>
     intro i s hi hinv hγ
-    have hstep := eagerStep_spd c ip mat j hip hm hsa hnn hpd heps htiny E0 i hi s hinv hγ
+    have hstep := eagerStep_spd c ip nrm mat j hip hm hsa hnn hpd heps htiny E0 i hi s hinv hγ
     rw [eagerLoop]
-    cases hE : eagerStep c ip mat j i s with
+    cases hE : eagerStep c ip nrm mat j i s with
     | stop r =>
       rw [hE] at hstep
       cases r with
@@ -263,7 +263,7 @@ theorem loop_spd (hip : SymmBilin ip) (hm : Linear (K := K) mat) (hsa : SelfAdj 
     it returns with `info = 0` or at the iteration limit -/
 theorem cgEager_spd (hip : SymmBilin ip) (hm : Linear (K := K) mat) (hsa : SelfAdj ip mat)
     (hnn : ∀ a, 0 ≤ ip a a) (hpd : ∀ v : V, v ≠ 0 → 0 < ip v (mat v)) (heps : 0 ≤ c.eps) (htiny : 0 ≤ c.tiny)
-    (x0 : Option V) : ∃ res, cgEager c ip mat j x0 = .ok res ∧ (res.info = 0 ∨ res.why = .maxiter) := by
+    (x0 : Option V) : ∃ res, cgEager c ip nrm mat j x0 = .ok res ∧ (res.info = 0 ∨ res.why = .maxiter) := by
   have hinit := init_invB ip mat j hip hm x0
   unfold cgEager
   simp only []
@@ -272,6 +272,6 @@ theorem cgEager_spd (hip : SymmBilin ip) (hm : Linear (K := K) mat) (hsa : SelfA
   · have hγ : 0 < (init ip mat j x0).gamma := by
       rw [init_gamma] at hz ⊢
       exact lt_of_le_of_ne (hnn _) (Ne.symm hz)
-    exact loop_spd c ip mat j hip hm hsa hnn hpd heps htiny _ (maxiterEff c) 1 _ (le_refl _) hinit hγ
+    exact loop_spd c ip nrm mat j hip hm hsa hnn hpd heps htiny _ (maxiterEff c) 1 _ (le_refl _) hinit hγ
 
 end NiftyVerif.CgRe
